@@ -54,6 +54,10 @@ def do_op(f, op):
         f.remove(op[1])
     elif k == "removedir":
         f.removedir(op[1])
+    elif k == "removetree":
+        f.removetree(op[1])
+    elif k == "exists":
+        f.exists(op[1])
     return None
 
 
@@ -120,9 +124,14 @@ def sequential_trees(img, progs):
     return out
 
 
+SETUP = {}      # label -> operations the main thread performs before the threads start (e.g. a first look that loads a directory into the cache)
+
+
 def one_schedule(ctx, img, meta, progs, seq_trees, policy, line_mode, label, rep):
     sc = S.Sched(len(progs), policy)
     f, dev = mount_rw(img, sc)
+    for op in SETUP.get(label, ()):
+        do_op(f, op)
     res = S.run_threads(sc, [lambda p=p: do_ops(f, p) for p in progs], pyfat_dir=PYFAT_DIR, line_mode=line_mode, timeout=30)
     ctx.evaluations += 1
     if sc.error:
@@ -181,7 +190,7 @@ def run(ctx):
     rng = ctx.rng
     for ft in ((12, 32) if ctx.tier == "quick" else (12, 16, 32)):
         img, meta = C13.base_image(rng, ft)
-        for pi in range(ctx.scale(3, 24)):
+        for pi in range(ctx.scale(4, 24)):
             if ctx.time_left() < 15:
                 break
             progs = writer_progs(rng, rng.choice([2, 2, 3]))
@@ -191,13 +200,17 @@ def run(ctx):
                 progs = [[("makedir", "/dir one/new a")], [("makedir", "/dir one/new b")]]
             if pi == 2:      # a handle write and a namespace operation in ONE directory (they must exclude each other: C19-m3)
                 progs = [[("write", "/dir one/W2.BIN", (b"C" * 1500).hex())], [("create", "/dir one/C2.TXT")]]
-            seq = sequential_trees(img, progs)
             label = f"fat{ft}-prog{pi}"
+            if pi == 3:      # a compound removal that frees a chain, against an append to an EMPTY file in an already loaded directory — it allocates
+                # before it touches the device (C19-m5: removetree left unlocked; its free_cluster_chain copies, changes and swaps the FAT)
+                progs = [[("removetree", "/E")], [("append", "/dir one/f00 with long name.txt", (b"D" * 1500).hex())]]
+                SETUP[label] = [("exists", "/dir one/f00 with long name.txt")]
+            seq = sequential_trees(img, progs)
             rep0 = dict(volume=meta, programs=progs)
             sc = one_schedule(ctx, img, meta, progs, seq, S.preempt_policy({}), False, label, dict(rep0, preempt={}))
             n = sc.step
             pts = list(range(1, n + 1))
-            cap = ctx.scale(60 if pi != 2 else 700, 400 if pi != 2 else 3000)     # the handle-write / namespace-operation program: every single pre-emption point
+            cap = ctx.scale(60 if pi not in (2, 3) else 700, 400 if pi not in (2, 3) else 3000)     # the handle-write / namespace-operation program: every single pre-emption point
             if len(pts) > cap:
                 pts = sorted(rng.sample(pts, cap))
             before = len(ctx.violations)
@@ -206,15 +219,19 @@ def run(ctx):
                 if len(ctx.violations) > before + 2:
                     break
             # one pre-emption at distinct source lines of the shared in-memory tree (see C18), for the two fixed programs; thorough: all programs
-            if pi in (0, 1, 2) or ctx.tier == "thorough":
+            if pi in (0, 1, 2, 3) or ctx.tier == "thorough":
                 scb = S.Sched(len(progs), S.preempt_policy({}))
                 scb.record_kinds = True
                 fb, _ = mount_rw(img, scb)
+                for op in SETUP.get(label, ()):
+                    do_op(fb, op)
                 S.run_threads(scb, [lambda p=p: do_ops(fb, p) for p in progs], pyfat_dir=PYFAT_DIR, line_mode=True, timeout=60)
                 for t in range(len(progs)):
-                    every = pi == 2 and ctx.tier == "thorough"      # every distinct line, not only the tree module's
-                    lines = [k for k in scb.kinds.get(t, {}) if k.startswith("line:") and (every or k.split(":")[1] in C18.TREE_FUNCS)]
-                    cap_l = ctx.scale(40 if not every else 120, 400 if not every else 2000)
+                    every = pi in (2, 3) and ctx.tier == "thorough"      # every distinct line, not only the tree module's
+                    # the FAT in memory is shared state like the tree: the lines of the functions that copy, change and swap it (C19-m5)
+                    fat_funcs = ("free_cluster_chain", "allocate_bytes", "flush_fat", "_remove", "removetree", "write_data_to_cluster") if pi == 3 else ()
+                    lines = [k for k in scb.kinds.get(t, {}) if k.startswith("line:") and (every or k.split(":")[1] in C18.TREE_FUNCS or k.split(":")[1] in fat_funcs)]
+                    cap_l = ctx.scale(40 if not every and pi != 3 else 160, 400 if not every else 2000)
                     if len(lines) > cap_l:
                         lines = rng.sample(lines, cap_l)
                     for k in lines:
